@@ -1,6 +1,6 @@
 """C04 — built-in TypeInfo impls describe the real SCALE encoding of std types (shape-class clause)."""
 from ..lib import facts, mir, shapes
-from . import common_identity as ci
+from . import common_identity as ci, common_registry as cr, c02
 
 LEVEL = "other"
 EXPLANATION = (
@@ -154,6 +154,10 @@ def run(chk, tier):
             encode_siblings(chk, prog, cfg)
         # a description is only reachable under its own id if identities are coherent
         ci.check_identities(chk, prog, cfg)
+        # "from the registry description alone": the description reaches the registry unchanged (C02's homomorphism, C01's insertion rule)
+        c02.check_config(chk, prog, cfg)
+        cr.check_register_type(chk, prog, cfg, rule="R1.2")
+        cr.check_from_registry(chk, prog, cfg, rule="R1.4")
     chk.trusted += ["rustc front end / MIR", "parity-scale-codec leaf encodings follow the SCALE specification",
                     "the builder API is lossless (decided separately by C17)"]
     chk.assumptions += ["arrays shorter than 2^32 elements"]
